@@ -99,7 +99,7 @@ def correspond(ctx):
     per = ctx.scale(40, 250)
     libs, cases = [], []
     for li in range(nlibs):
-        lib = cfggen.gen_library(rng, f"c01_{ctx.seed}_{li}")
+        lib = cfggen.gen_library(rng, f"c01_{ctx.seed}_{li}", cfg_defaults=common.CFG_DEFAULTS)
         libs.append(lib)
         for _ in range(per):
             g = cfggen.gen_graph(rng, lib, max_nodes=rng.choice([3, 6, 10, 12]))
@@ -196,7 +196,7 @@ def search(ctx):
     rng = random.Random(f"search-{ctx.seed}")
     libs, cases = [], []
     for li in range(ctx.scale(6, 30)):
-        lib = cfggen.gen_library(rng, f"c01s_{ctx.seed}_{li}")
+        lib = cfggen.gen_library(rng, f"c01s_{ctx.seed}_{li}", cfg_defaults=common.CFG_DEFAULTS)
         libs.append(lib)
         for _ in range(60):
             cases.append(make_case(rng, li, lib, cfggen.gen_graph(rng, lib, max_nodes=rng.choice([3, 5, 8]))))
